@@ -82,7 +82,7 @@ TSpec == /\ IsEvent("Spec") /\ TType = "sample" /\ stage = "specs"
          /\ LET s == E.service  r == RpcIdOf(E.rpc)  k == KindOfTransport(E.transport) IN
             IF <<s, r, k>> \in Wanted(api)
             THEN /\ PickFocus /\ focus' = SpecRec(api, s, r, k)
-                 /\ Note(If(E.tag = focus'.tag, "inventory:tag-form"))
+                 /\ Note(If(E.tag = focus'.tag, "inventory:tag-form") \cup If(E.file = FileOf(api, s, r, k), "file:name"))
             ELSE Abort /\ Note({"inventory:unexpected:" \o k})
 
 TFile == /\ IsEvent("File") /\ stage = "render"
@@ -133,6 +133,7 @@ TMeta == /\ IsEvent("Meta") /\ stage = "parse"
             ELSE Note(SegDevs(lines, E.segments, segs')
                       \cup If(E.count = 1, "meta:entry-count")
                       \cup If(E.file = E.actualFile, "meta:file")
+                      \cup If(E.tag = focus.tag, "meta:region-tag")
                       \cup If(E.client = ClientName(focus.svc, focus.kind), "meta:client-name")
                       \cup If(E.method = Snake(focus.rpc), "meta:method-name")
                       \cup If(E.rpc = RpcName(focus.rpc) /\ E.service = focus.svc, "meta:rpc-name")
